@@ -178,6 +178,8 @@ type sched struct {
 	over       bool
 	enBuf      []*thread
 	closed     map[uintptr]any
+	slots      map[uintptr]*slot
+	keep       []any
 	inEvent    bool
 }
 
@@ -199,7 +201,7 @@ func Run(o RunOpts, body func()) RunResult {
 		panic("verifshim.Run in free mode")
 	}
 	sc := &sched{devs: o.Devs, eventStep: o.EventStep, eventFn: o.EventFn, horizon: o.Horizon,
-		finished: make(chan struct{}), closed: map[uintptr]any{}}
+		finished: make(chan struct{}), closed: map[uintptr]any{}, slots: map[uintptr]*slot{}}
 	if sc.horizon == 0 {
 		sc.horizon = 50000
 	}
